@@ -7,7 +7,7 @@
 #define CVS_SREAL_H
 #include <cvs_base.h>
 #ifndef T_NT
-#define T_NT 48
+#define T_NT 72
 #endif
 #define T_LEAF 1
 #define T_ADD 2
@@ -18,15 +18,16 @@
 #define T_CALL 7
 extern "C" {
   // packed into two objects (fewer frame targets = cheaper contract instrumentation):
-  extern int g_ti[1 + 4 * T_NT];   // [0] number of nodes; per node: operator, operand nodes a, b, c (or: tag / arg nodes of a call)
+  extern unsigned long long g_tw[T_NT];   // per node, packed in one word (one frame-checked write): operator (8 bits), operand nodes a, b, c stored +1 (16 bits each; or: tag / arg nodes of a call)
   extern double g_tv[T_NT];        // payload (leaf value, or the unconstrained result value)
-#define g_tn g_ti[0]
-#define g_top(n) g_ti[1 + 4 * (n)]
-#define g_ta(n) g_ti[2 + 4 * (n)]
-#define g_tb(n) g_ti[3 + 4 * (n)]
-#define g_tc(n) g_ti[4 + 4 * (n)]
+extern int g_tn_;
+#define g_tn g_tn_
+#define g_top(n) ((int) (g_tw[n] & 255))
+#define g_ta(n) ((int) ((g_tw[n] >> 8) & 65535) - 1)
+#define g_tb(n) ((int) ((g_tw[n] >> 24) & 65535) - 1)
+#define g_tc(n) ((int) ((g_tw[n] >> 40) & 65535) - 1)
+#define T_PACK(op, a, b, c) ((unsigned long long) (op) | ((unsigned long long) ((a) + 1) << 8) | ((unsigned long long) ((b) + 1) << 24) | ((unsigned long long) ((c) + 1) << 40))
   double nondet_double();
-  int k_tnode(int op, int a, int b, int c, double val, int isleaf);
 }
 struct sreal {
   double v; int id;
@@ -36,23 +37,19 @@ struct sreal {
   sreal(long x) { v = (double) x; id = leaf(v); }
   sreal(long long x) { v = (double) x; id = leaf(v); }
   sreal(unsigned long x) { v = (double) x; id = leaf(v); }
-#ifdef CVS_TNODE_CALL
-  // node creation through one contract-replaced call (cheaper under dfcc than six instrumented writes)
-  static int leaf(double x) { return k_tnode(T_LEAF, -1, -1, -1, x, 1); }
-  static sreal node(int op, int a, int b, int c = -1) { sreal r; int n = k_tnode(op, a, b, c, 0.0, 0); r.id = n; r.v = g_tv[n]; return r; }
-#else
   static int leaf(double x) {
     int n = g_tn; CVS_ASSERT(n >= 0 && n < T_NT, "term table capacity (modelling limit)");
-    g_top(n) = T_LEAF; g_ta(n) = -1; g_tb(n) = -1; g_tc(n) = -1; g_tv[n] = x; g_tn = n + 1; return n;
+    g_tw[n] = T_PACK(T_LEAF, -1, -1, -1); g_tv[n] = x; g_tn = n + 1; return n;
   }
   static sreal node(int op, int a, int b, int c = -1) {
     sreal r; int n = g_tn; CVS_ASSERT(n >= 0 && n < T_NT, "term table capacity (modelling limit)");
     double val = nondet_double(); __CPROVER_assume(val >= -1.0e300 && val <= 1.0e300);
-    g_top(n) = op; g_ta(n) = a; g_tb(n) = b; g_tc(n) = c; g_tv[n] = val; g_tn = n + 1; r.v = val; r.id = n; return r;
+    CVS_ASSERT(op >= 0 && op < 256 && a >= -1 && a < 65535 && b >= -1 && b < 65535 && c >= -1 && c < 65535, "term node fields fit the packed word (modelling limit)");
+    g_tw[n] = T_PACK(op, a, b, c); g_tv[n] = val; g_tn = n + 1; r.v = val; r.id = n; return r;
   }
-#endif
-  // an operand that was never given a value (default-constructed) becomes a leaf 0.0 on first use
-  int nid() const { return id >= 0 ? id : leaf(v); }
+  // an operand that was never given a value (default-constructed, id -1) stands for the literal 0.0: the operand slot holds -1
+  // (no node is allocated for it, so node numbering does not depend on it; P_LEAF(n, 0.0) accepts -1)
+  int nid() const { return id; }
   sreal &operator=(double x) { v = x; id = leaf(x); return *this; }
   sreal operator-() const { return node(T_NEG, nid(), -1); }
   sreal &operator+=(sreal const &b) { sreal r = node(T_ADD, nid(), b.nid()); v = r.v; id = r.id; return *this; }
